@@ -250,6 +250,9 @@ inductive Net
   | un (id : Nat) (f : T → T) (a : Net)                -- any other one-input layer
   | bin (id : Nat) (f : T → T → T) (a b : Net)         -- any two-input merge layer
 
+/-- `relu` as a tensor function -/
+def relu (v : T) : T := v.map fun q => if q < 0 then 0 else q
+
 def noStats : BatchStats := { mean := [], var := [] }
 
 def Net.eval (rs : Rat → Rat) (x : T) : Net → Option T
